@@ -11,7 +11,12 @@ package main
 //       - the JSON key of the field `F` when the value is `<src>.F` or `f(<src>.F)` (one-argument call),
 //       - "<local>" for a local identifier, "<const>" for a literal, "=<text>" for a string literal in the
 //         security-scheme switch, "<make>" for `make(…)`, "<call>" for other calls on non-source values;
-//   * fields tagged `json:"-"` (Extensions) are skipped.
+//   * fields tagged `json:"-"` (Extensions) are skipped;
+//   * `ref2To3` and `bodyParamNameRows`: the string literals of the package-level variables `ref2To3` (prefix map of
+//     ToV3Ref / FromV3Ref) and `attemptedBodyParameterNames`;
+//   * `<fn>Assigned` lists (ToV3SchemaRef, FromV3SchemaRef, ToV3Operation, FromV3Operation): the JSON keys of the fields of the destination
+//     variable that statements of the function assign outside the literal (`v.F = …`, `v.F, _ = …`,
+//     `v.F[k] = …`), in source order without repetition — the typed fields (discriminator, items, …).
 
 import (
 	"fmt"
@@ -303,6 +308,102 @@ func (c *ctx17) secBackTable() []row17 {
 	return rows
 }
 
+// assignedFields: JSON keys of the fields of dstVar assigned by statements of fn (see the rules above).
+func (c *ctx17) assignedFields(fnName, dstVar, dstType string) []string {
+	fn := c.convFn[fnName]
+	if fn == nil {
+		c.unrec = append(c.unrec, "function "+fnName+" not found")
+		return nil
+	}
+	dp := strings.SplitN(dstType, ".", 2)
+	dstTags, err := c.structTags(dp[0], dp[1])
+	if err != nil {
+		c.unrec = append(c.unrec, fmt.Sprintf("%s: tags: %v", fnName, err))
+		return nil
+	}
+	var out []string
+	seen := map[string]bool{}
+	ast.Inspect(fn.Body, func(n ast.Node) bool {
+		as, ok := n.(*ast.AssignStmt)
+		if !ok {
+			return true
+		}
+		for _, l := range as.Lhs {
+			if ix, ok := l.(*ast.IndexExpr); ok {
+				l = ix.X
+			}
+			ls, ok := l.(*ast.SelectorExpr)
+			if !ok || exprText(ls.X) != dstVar {
+				continue
+			}
+			pos := c.fset.Position(as.Pos())
+			dk, ok := dstTags[ls.Sel.Name]
+			if !ok {
+				c.unrec = append(c.unrec, fmt.Sprintf("%s:%d: unknown destination field %s", filepath.Base(pos.Filename), pos.Line, ls.Sel.Name))
+				continue
+			}
+			if dk == "-" || seen[dk] {
+				continue
+			}
+			seen[dk] = true
+			out = append(out, dk)
+		}
+		return true
+	})
+	return out
+}
+
+// stringVar reads a package-level `var name = map[string]string{…}` (rows key → value, source order) or
+// `var name = []string{…}` (rows element → "") whose keys / elements are string literals.
+func (c *ctx17) stringVar(f *ast.File, name string) []row17 {
+	for _, d := range f.Decls {
+		gd, ok := d.(*ast.GenDecl)
+		if !ok || gd.Tok != token.VAR {
+			continue
+		}
+		for _, sp := range gd.Specs {
+			vs, ok := sp.(*ast.ValueSpec)
+			if !ok || len(vs.Names) != 1 || vs.Names[0].Name != name || len(vs.Values) != 1 {
+				continue
+			}
+			cl, ok := vs.Values[0].(*ast.CompositeLit)
+			if !ok {
+				c.unrec = append(c.unrec, "var "+name+": not a composite literal")
+				return nil
+			}
+			lit := func(e ast.Expr) (string, bool) {
+				bl, ok := e.(*ast.BasicLit)
+				if !ok || bl.Kind != token.STRING {
+					return "", false
+				}
+				return strings.Trim(bl.Value, `"`), true
+			}
+			var rows []row17
+			for _, el := range cl.Elts {
+				if kv, ok := el.(*ast.KeyValueExpr); ok {
+					k, ok1 := lit(kv.Key)
+					v, ok2 := lit(kv.Value)
+					if !ok1 || !ok2 {
+						c.unrec = append(c.unrec, "var "+name+": element is not a pair of string literals")
+						continue
+					}
+					rows = append(rows, row17{k, v})
+					continue
+				}
+				v, ok := lit(el)
+				if !ok {
+					c.unrec = append(c.unrec, "var "+name+": element is not a string literal")
+					continue
+				}
+				rows = append(rows, row17{v, ""})
+			}
+			return rows
+		}
+	}
+	c.unrec = append(c.unrec, "var "+name+" not found")
+	return nil
+}
+
 func leanStr(s string) string {
 	return `"` + strings.ReplaceAll(strings.ReplaceAll(s, `\`, `\\`), `"`, `\"`) + `"`
 }
@@ -332,6 +433,10 @@ func extractCopyTables(repo string) (string, error) {
 		{"fromV3FileTable", c.litTable("FromV3SchemaRef", "openapi2.Parameter", "schema.Value", "openapi3.Schema")},
 		{"toV3FlowTable", c.litTable("ToV3SecurityScheme", "openapi3.OAuthFlow", "securityScheme", "openapi2.SecurityScheme")},
 		{"fromV3SecTable", c.secBackTable()},
+		{"toV3OpTable", c.litTable("ToV3Operation", "openapi3.Operation", "operation", "openapi2.Operation")},
+		{"fromV3OpTable", c.litTable("FromV3Operation", "openapi2.Operation", "operation", "openapi3.Operation")},
+		{"ref2To3", c.stringVar(f, "ref2To3")},
+		{"bodyParamNameRows", c.stringVar(f, "attemptedBodyParameterNames")},
 	}
 	var b strings.Builder
 	b.WriteString("-- generated by go/cmd/extract (table CopyTables) from openapi2conv/openapi2_conv.go — do not edit\n")
@@ -345,6 +450,25 @@ func extractCopyTables(repo string) (string, error) {
 				sep = ""
 			}
 			fmt.Fprintf(&b, "  (%s, %s)%s\n", leanStr(r.dst), leanStr(r.src), sep)
+			n++
+		}
+		b.WriteString("]\n\n")
+	}
+	for _, t := range []struct {
+		name string
+		keys []string
+	}{
+		{"toV3SchemaAssigned", c.assignedFields("ToV3SchemaRef", "v3Schema", "openapi3.Schema")},
+		{"fromV3SchemaAssigned", c.assignedFields("FromV3SchemaRef", "v2Schema", "openapi2.Schema")},
+		{"toV3OpAssigned", c.assignedFields("ToV3Operation", "doc3", "openapi3.Operation")},
+		{"fromV3OpAssigned", c.assignedFields("FromV3Operation", "result", "openapi2.Operation")},
+	} {
+		fmt.Fprintf(&b, "def %s : List String := [", t.name)
+		for i, k := range t.keys {
+			if i > 0 {
+				b.WriteString(", ")
+			}
+			b.WriteString(leanStr(k))
 			n++
 		}
 		b.WriteString("]\n\n")
